@@ -128,8 +128,19 @@ func c18names(o *obsResult) []string {
 			dartEnums[m[1]] = ms
 		}
 	}
+	// a local name carried by types of two packages: the text readers below cannot tell them apart
+	idsByLocal := map[string]map[string]bool{}
+	for _, n := range o.Nameds {
+		if idsByLocal[n.Local] == nil {
+			idsByLocal[n.Local] = map[string]bool{}
+		}
+		idsByLocal[n.Local][n.PkgPath] = true
+	}
 	for _, n := range o.Nameds {
 		generic := strings.Contains(n.ID, "[")
+		if len(idsByLocal[n.Local]) > 1 {
+			continue
+		}
 		switch n.Kind {
 		case "KdUnion":
 			if gu.Outcome == "ok" && n.PkgPath == o.RootPkg && strings.Contains(gu.Text, "type "+n.Local+"Wrapper struct") {
